@@ -199,6 +199,12 @@ func FaultsInjected() int              { return 0 }
 func FSVisible(on bool)                {}
 func SetPid(n int)                     {}
 
+// FSLog returns the model file system's operation log ("<pid> <op> <path> [content=..]"); native: empty.
+func FSLog() []string { return nil }
+
+// Class labels the violation reported next on this path (used to key known findings).
+func Class(c string) {}
+
 // CrashBudget bounds the total number of simulated crashes on a path (native: no-op).
 func CrashBudget(n int) {}
 
